@@ -5,6 +5,7 @@ package main
 
 import (
 	"context"
+	"encoding/base64"
 	"encoding/json"
 	"errors"
 	"flag"
@@ -561,4 +562,113 @@ func patientUntil(d, step time.Duration, cond func() bool) bool {
 		time.Sleep(step)
 	}
 	return true
+}
+
+// ---- saved inputs (regression tier) -------------------------------------------
+//
+// /verif/regress/<property>/*.json holds plain inputs - the witnesses of the
+// defects the checks have found (now repaired) and the minimised inputs of
+// seeded changes - that every run replays first, without the property library:
+// no generator, no PRNG, no shrinking. Each file is one JSON object; its "kind"
+// selects the executor of the owning check, the remaining fields are the input.
+// Byte strings are JSON strings; a value starting with "b64:" is base64.
+
+type regressCase struct {
+	Name string
+	F    map[string]any
+}
+
+func (c regressCase) S(k string) string {
+	s, _ := c.F[k].(string)
+	if strings.HasPrefix(s, "b64:") {
+		if b, err := base64.StdEncoding.DecodeString(s[4:]); err == nil {
+			return string(b)
+		}
+	}
+	return s
+}
+
+func (c regressCase) I(k string) int {
+	f, _ := c.F[k].(float64)
+	return int(f)
+}
+
+func (c regressCase) Bool(k string) bool {
+	b, _ := c.F[k].(bool)
+	return b
+}
+
+func (c regressCase) Strings(k string) []string {
+	var out []string
+	if l, ok := c.F[k].([]any); ok {
+		for _, x := range l {
+			s, _ := x.(string)
+			out = append(out, s)
+		}
+	}
+	return out
+}
+
+func (c regressCase) Ints(k string) []int {
+	var out []int
+	if l, ok := c.F[k].([]any); ok {
+		for _, x := range l {
+			f, _ := x.(float64)
+			out = append(out, int(f))
+		}
+	}
+	return out
+}
+
+func regressLoad(prop string) ([]regressCase, error) {
+	dir := os.Getenv("VERIF_DIR")
+	if dir == "" {
+		return nil, nil
+	}
+	files, _ := filepath.Glob(filepath.Join(dir, "regress", prop, "*.json"))
+	sort.Strings(files)
+	var out []regressCase
+	for _, f := range files {
+		b, err := os.ReadFile(f)
+		if err != nil {
+			return nil, err
+		}
+		var m map[string]any
+		if err := json.Unmarshal(b, &m); err != nil {
+			return nil, fmt.Errorf("%s: %v", f, err)
+		}
+		out = append(out, regressCase{Name: strings.TrimSuffix(filepath.Base(f), ".json"), F: m})
+	}
+	return out, nil
+}
+
+// Regress replays the saved inputs of the running property as the sub-test
+// "regress". exec returns "" (held), a failure text, or "skip: ..." when the
+// kind is not one it executes.
+func (v *vState) Regress(t *testing.T, exec func(c regressCase) string) {
+	t.Run("regress", func(t *testing.T) {
+		if v.replay && !strings.HasPrefix(v.only, "regress:") {
+			return
+		}
+		cases, err := regressLoad(v.prop)
+		if err != nil {
+			v.HarnessError(t, "saved inputs unreadable: %v", err)
+		}
+		for _, c := range cases {
+			only := "regress:" + c.Name
+			if v.only != "" && v.only != only {
+				continue
+			}
+			v.Eval()
+			msg := exec(c)
+			if strings.HasPrefix(msg, "skip:") {
+				v.Class("saved inputs of a kind this check does not execute")
+				continue
+			}
+			v.Class("saved inputs replayed (regress/" + v.prop + ")")
+			if msg != "" {
+				v.Violation(t, only, c.F, "saved input %s (%v): %s", c.Name, c.F["finding"], msg)
+			}
+		}
+	})
 }
